@@ -137,8 +137,8 @@ Proof.
 Qed.
 
 (* C13 geometry: for every list of stream sizes the writer's sector counts are consistent *)
-Theorem locate_geometry sizes npaths g :
-  (forall s, In s sizes -> 0 <= s) -> 0 <= npaths -> locate sizes npaths = Some g ->
+Lemma locate_with_geometry fuel sizes npaths g :
+  (forall s, In s sizes -> 0 <= s) -> 0 <= npaths -> locate_with fuel sizes npaths = Some g ->
   let ministream := (g_mini g + 7) / 8 in
   let sectors := ministream + g_big g + g_dir g + g_minifat g in
   (* every sector after the header, FAT and DIFAT sectors included, has an entry in the FAT *)
@@ -152,9 +152,9 @@ Theorem locate_geometry sizes npaths g :
   g_end g = g_ministream_start g + ministream /\
   4 * g_dir g >= npaths.
 Proof.
-  intros Hs Hn H. unfold locate in H.
+  intros Hs Hn H. unfold locate_with in H.
   set (mini := sumZ (map mini_sectors_of sizes)) in *. set (big := sumZ (map fat_sectors_of sizes)) in *.
-  destruct (fat_loop 4096 _ _) as [[f d]|] eqn:E; [|discriminate]. inversion H; subst g. clear H. cbn [g_mini g_big g_dir g_minifat g_fat g_difat g_ministream_start g_end].
+  destruct (fat_loop fuel _ _) as [[f d]|] eqn:E; [|discriminate]. inversion H; subst g. clear H. cbn [g_mini g_big g_dir g_minifat g_fat g_difat g_ministream_start g_end].
   destruct (fat_loop_post _ _ _ _ _ E) as (Hd & Hf & Hc).
   assert (Hmini : 0 <= mini).
   { apply sum_nonneg. intros x Hx. apply in_map_iff in Hx. destruct Hx as (s & <- & Hin). unfold mini_sectors_of, mini_cutoff. destruct ((0 <? s) && (s <? 4096)) eqn:Eb; lia. }
@@ -165,12 +165,24 @@ Proof.
   subst d. repeat split; try lia.
 Qed.
 
-Theorem locate_total sizes npaths :
+Theorem locate_geometry sizes npaths g :
+  (forall s, In s sizes -> 0 <= s) -> 0 <= npaths -> locate sizes npaths = Some g ->
+  let ministream := (g_mini g + 7) / 8 in
+  let sectors := ministream + g_big g + g_dir g + g_minifat g in
+  sectors + g_fat g + g_difat g <= 128 * g_fat g /\
+  g_fat g <= 109 + 127 * g_difat g /\ g_difat g = difat_for (g_fat g) /\
+  g_mini g <= 128 * g_minifat g /\ g_mini g <= 8 * ministream /\
+  g_ministream_start g = 1 + g_difat g + g_fat g + g_minifat g + g_dir g + g_big g /\
+  g_end g = g_ministream_start g + ministream /\
+  4 * g_dir g >= npaths.
+Proof. unfold locate. apply locate_with_geometry. Qed.
+
+Lemma locate_with_total fuel sizes npaths : 4096 <= Z.of_nat fuel ->
   (forall s, In s sizes -> 0 <= s) -> 0 <= npaths ->
   (sumZ (map mini_sectors_of sizes) + 7) / 8 + sumZ (map fat_sectors_of sizes) + (npaths + 3) / 4 + (sumZ (map mini_sectors_of sizes) + 127) / 128 <= 500000 ->
-  exists g, locate sizes npaths = Some g.
+  exists g, locate_with fuel sizes npaths = Some g.
 Proof.
-  intros Hs Hn Hb. unfold locate.
+  intros Hfuel Hs Hn Hb. unfold locate_with.
   set (sectors := _ + _ + _ + _) in *.
   assert (H0 : 0 <= sectors).
   { unfold sectors. assert (0 <= sumZ (map mini_sectors_of sizes)).
@@ -178,7 +190,15 @@ Proof.
     assert (0 <= sumZ (map fat_sectors_of sizes)).
     { apply sum_nonneg. intros x Hx. apply in_map_iff in Hx. destruct Hx as (s & <- & Hin). unfold fat_sectors_of, mini_cutoff. specialize (Hs s Hin). destruct (4096 <=? s) eqn:Eb; lia. }
     lia. }
-  destruct (fat_loop_terminates 4095 sectors ((sectors + 127) / 128) H0 ltac:(lia)) as [[f d] Hr].
-  - change (Z.of_nat 4095) with 4095. lia.
-  - change (S 4095) with 4096%nat in Hr. rewrite Hr. eexists. reflexivity.
+  destruct fuel as [|k]; [lia|].
+  assert (Hf0 : 0 <= (sectors + 127) / 128) by (apply Z.div_pos; lia).
+  destruct (fat_loop_terminates k sectors ((sectors + 127) / 128) H0 Hf0) as [[f d] Hr].
+  - clearbody sectors. lia.
+  - rewrite Hr. eexists. reflexivity.
 Qed.
+
+Theorem locate_total sizes npaths :
+  (forall s, In s sizes -> 0 <= s) -> 0 <= npaths ->
+  (sumZ (map mini_sectors_of sizes) + 7) / 8 + sumZ (map fat_sectors_of sizes) + (npaths + 3) / 4 + (sumZ (map mini_sectors_of sizes) + 127) / 128 <= 500000 ->
+  exists g, locate sizes npaths = Some g.
+Proof. unfold locate. apply locate_with_total. unfold fat_fuel. rewrite Z2Nat.id; lia. Qed.
